@@ -20,6 +20,7 @@ from liquid2.builtin import Literal
 from liquid2.builtin import StringLiteral
 from liquid2.builtin import identifier_str
 from liquid2.builtin import parse_keyword_arguments
+from liquid2.context import length
 from liquid2.builtin import parse_primitive
 from liquid2.builtin import parse_string_or_identifier
 from liquid2.exceptions import LiquidSyntaxError
@@ -108,11 +109,11 @@ class RenderNode(Node):
             key = self.alias or template.name.split(".")[0]
 
             if self.loop and isinstance(val, Sequence) and not isinstance(val, str):
-                context.raise_for_loop_limit(len(val))
+                context.raise_for_loop_limit(length(val))
                 forloop = ForLoop(
                     name=key,
                     it=iter(val),
-                    length=len(val),
+                    length=length(val),
                     parentloop=context.env.undefined("parentloop", token=self.token),
                 )
 
@@ -179,11 +180,11 @@ class RenderNode(Node):
             key = self.alias or template.name.split(".")[0]
 
             if self.loop and isinstance(val, Sequence) and not isinstance(val, str):
-                context.raise_for_loop_limit(len(val))
+                context.raise_for_loop_limit(length(val))
                 forloop = ForLoop(
                     name=key,
                     it=iter(val),
-                    length=len(val),
+                    length=length(val),
                     parentloop=context.env.undefined("parentloop", token=self.token),
                 )
 
